@@ -1,5 +1,687 @@
 package main
 
 // Replay of solver counterexamples against the real code.
+//
+// For a refuted obligation of a unit whose parameters are integers, booleans,
+// byte/uint32 slices, structs of those, or pointers to such structs, the model
+// is turned into a concrete in-package Go test (injected with `go test
+// -overlay`, nothing is written into /repo). The test calls the real function
+// on the model's inputs and observes the property-level effect: a panic (safety
+// obligations) or the negation of the postcondition, which is translated from
+// the contract expression to Go. Anything else falls back to the textual replay
+// artefact (no-failing-input-found).
 
-func (p *Prog) tryConcreteReplay(o *Obl, prop, dir, base string) (string, bool) { return "", false }
+import (
+	"bytes"
+	"fmt"
+	"go/types"
+	"os"
+	"os/exec"
+	"path/filepath"
+	"sort"
+	"strconv"
+	"strings"
+
+	"golang.org/x/tools/go/ssa"
+)
+
+type rparam struct {
+	name  string
+	typ   types.Type
+	goVar string
+}
+
+type replayCtx struct {
+	p      *Prog
+	fn     *ssa.Function
+	o      *Obl
+	terms  []string          // SMT terms whose values are requested
+	vals   map[string]string // term -> value literal (#x.., true, false)
+	decl   map[string]bool
+	setup  strings.Builder
+	imports map[string]bool
+	ok     bool
+}
+
+func (p *Prog) tryConcreteReplay(o *Obl, prop, dir, base string) (string, bool) {
+	if o.Status != "refuted" || o.Exec == nil || o.Exec.fn == nil || o.Query == "" {
+		if o.MetricName != "" {
+			return p.metricReplay(o, dir, base)
+		}
+		return "", false
+	}
+	if o.Kind != "safe" && o.Kind != "ensures" {
+		return "", false
+	}
+	fn := o.Exec.fn
+	if fn.Pkg == nil || len(fn.FreeVars) > 0 || strings.Contains(fn.Name(), "$") {
+		return "", false
+	}
+	rc := &replayCtx{p: p, fn: fn, o: o, vals: map[string]string{}, decl: map[string]bool{}, imports: map[string]bool{"testing": true}}
+	for n := range o.Exec.decls {
+		rc.decl[n] = true
+	}
+	// phase 1: scalar values and lengths
+	for _, prm := range fn.Params {
+		if !rc.collectTerms(sanitize(prm.Name()), prm.Type(), 0) {
+			return "", false
+		}
+	}
+	if !rc.getValues() {
+		return "", false
+	}
+	// phase 2: element values of slices up to their model length
+	rc.terms = nil
+	for _, prm := range fn.Params {
+		rc.collectElems(sanitize(prm.Name()), prm.Type())
+	}
+	if len(rc.terms) > 0 && !rc.getValues() {
+		return "", false
+	}
+	src, ok := rc.render(prop)
+	if !ok {
+		return "", false
+	}
+	testFile := filepath.Join(dir, base+"_test.go")
+	os.WriteFile(testFile, []byte(src), 0644)
+	pkgDir := filepath.Dir(p.fset.Position(fn.Pos()).Filename)
+	out, confirmed := runOverlayTest(pkgDir, testFile, "TestReplayCounterexample")
+	os.WriteFile(filepath.Join(dir, base+".out.txt"), []byte(out), 0644)
+	if !confirmed {
+		return "", false
+	}
+	return testFile, true
+}
+
+func runOverlayTest(pkgDir, testFile, run string) (string, bool) {
+	tmp, err := os.MkdirTemp("", "walvc-replay")
+	if err != nil {
+		return err.Error(), false
+	}
+	defer os.RemoveAll(tmp)
+	ov := fmt.Sprintf(`{"Replace": {%q: %q}}`, filepath.Join(pkgDir, "zz_walvc_replay_test.go"), testFile)
+	os.WriteFile(filepath.Join(tmp, "ov.json"), []byte(ov), 0644)
+	cmd := exec.Command("go", "test", "-overlay", filepath.Join(tmp, "ov.json"), "-vet=off", "-count=1", "-timeout", "60s", "-run", "^"+run+"$", "-v", ".")
+	cmd.Dir = pkgDir
+	cmd.Env = append(os.Environ(), "GOFLAGS=-mod=mod", "GOPROXY=off", "GOSUMDB=off", "GOTOOLCHAIN=local")
+	var out bytes.Buffer
+	cmd.Stdout = &out
+	cmd.Stderr = &out
+	cmd.Run()
+	return out.String(), strings.Contains(out.String(), "REPLAY-CONFIRMED")
+}
+
+func (rc *replayCtx) want(term string) {
+	rc.terms = append(rc.terms, term)
+}
+
+func (rc *replayCtx) collectTerms(name string, t types.Type, depth int) bool {
+	if depth > 3 {
+		return false
+	}
+	if _, _, ok := intInfo(t); ok {
+		rc.want(name)
+		return true
+	}
+	if isBoolType(t) {
+		rc.want(name)
+		return true
+	}
+	if isErrorType(t) || isTimeType(t) {
+		return true // left at its zero value
+	}
+	switch u := t.Underlying().(type) {
+	case *types.Slice:
+		if _, _, ok := intInfo(u.Elem()); !ok {
+			return false
+		}
+		rc.want(name + "?len")
+		rc.want(name + "?nil")
+		return true
+	case *types.Struct:
+		if isOpaqueStructType(t) {
+			return true
+		}
+		for i := 0; i < u.NumFields(); i++ {
+			ft := u.Field(i).Type()
+			if _, isI := ft.Underlying().(*types.Interface); isI && !isErrorType(ft) {
+				continue // left nil
+			}
+			if !rc.collectTerms(name+"."+u.Field(i).Name(), ft, depth+1) {
+				return false
+			}
+		}
+		return true
+	case *types.Pointer:
+		rc.want(name + "?nil")
+		if _, ok := u.Elem().Underlying().(*types.Struct); !ok {
+			return false
+		}
+		return rc.collectTerms(name+"^", u.Elem(), depth+1)
+	}
+	return false
+}
+
+func (rc *replayCtx) intVal(term string) (uint64, bool) {
+	v, ok := rc.vals[term]
+	if !ok {
+		return 0, false
+	}
+	if strings.HasPrefix(v, "#x") {
+		n, err := strconv.ParseUint(v[2:], 16, 64)
+		return n, err == nil
+	}
+	if strings.HasPrefix(v, "#b") {
+		n, err := strconv.ParseUint(v[2:], 2, 64)
+		return n, err == nil
+	}
+	return 0, false
+}
+
+func (rc *replayCtx) collectElems(name string, t types.Type) {
+	switch u := t.Underlying().(type) {
+	case *types.Slice:
+		n, ok := rc.intVal(name + "?len")
+		if !ok || n > 1<<16 {
+			return
+		}
+		if !rc.decl[name+"@mem"] {
+			return
+		}
+		for i := uint64(0); i < n; i++ {
+			rc.want(fmt.Sprintf("(select %s@mem %s)", name, BVConst(64, i).S))
+		}
+	case *types.Struct:
+		if isOpaqueStructType(t) {
+			return
+		}
+		for i := 0; i < u.NumFields(); i++ {
+			rc.collectElems(name+"."+u.Field(i).Name(), u.Field(i).Type())
+		}
+	case *types.Pointer:
+		rc.collectElems(name+"^", u.Elem())
+	}
+}
+
+// getValues asks the solver for the values of rc.terms in a model of the query.
+func (rc *replayCtx) getValues() bool {
+	var req []string
+	for _, t := range rc.terms {
+		// only terms whose head symbol is declared in the query
+		sym := t
+		if strings.HasPrefix(t, "(select ") {
+			sym = strings.Fields(t)[1]
+		}
+		if !strings.Contains(rc.o.Query, "(declare-const "+sym+" ") {
+			continue
+		}
+		req = append(req, t)
+	}
+	if len(req) == 0 {
+		return true
+	}
+	tmp, err := os.MkdirTemp("", "walvc-model")
+	if err != nil {
+		return false
+	}
+	defer os.RemoveAll(tmp)
+	f := filepath.Join(tmp, "q.smt2")
+	for start := 0; start < len(req); start += 400 {
+		end := start + 400
+		if end > len(req) {
+			end = len(req)
+		}
+		q := rc.o.Query + "(get-value (" + strings.Join(req[start:end], " ") + "))\n"
+		os.WriteFile(f, []byte(q), 0644)
+		out, _ := exec.Command("z3-new", "-T:30", f).CombinedOutput()
+		lines := strings.SplitN(string(out), "\n", 2)
+		if strings.TrimSpace(lines[0]) != "sat" || len(lines) < 2 {
+			out, _ = exec.Command("z3", "-T:30", f).CombinedOutput()
+			lines = strings.SplitN(string(out), "\n", 2)
+			if strings.TrimSpace(lines[0]) != "sat" || len(lines) < 2 {
+				return false
+			}
+		}
+		for _, n := range parseSx(lines[1]) {
+			for _, pair := range n.list {
+				if len(pair.list) == 2 {
+					rc.vals[pair.list[0].String()] = pair.list[1].String()
+				}
+			}
+		}
+	}
+	return true
+}
+
+func (rc *replayCtx) goType(t types.Type) string {
+	return types.TypeString(t, func(p *types.Package) string {
+		if p == rc.fn.Pkg.Pkg {
+			return ""
+		}
+		rc.imports[p.Path()] = true
+		return p.Name()
+	})
+}
+
+// goValue renders the model value of a parameter as a Go expression.
+func (rc *replayCtx) goValue(name string, t types.Type) (string, bool) {
+	if w, signed, ok := intInfo(t); ok {
+		v, _ := rc.intVal(name)
+		if signed {
+			return fmt.Sprintf("%s(%d)", rc.goType(t), signExt(v, w)), true
+		}
+		return fmt.Sprintf("%s(%d)", rc.goType(t), v), true
+	}
+	if isBoolType(t) {
+		return fmt.Sprintf("%v", rc.vals[name] == "true"), true
+	}
+	if isErrorType(t) {
+		return "nil", true
+	}
+	switch u := t.Underlying().(type) {
+	case *types.Slice:
+		if rc.vals[name+"?nil"] == "true" {
+			return "nil", true
+		}
+		n, _ := rc.intVal(name + "?len")
+		if n > 1<<16 {
+			return "", false
+		}
+		w, _, _ := intInfo(u.Elem())
+		var els []string
+		for i := uint64(0); i < n; i++ {
+			v, _ := rc.intVal(fmt.Sprintf("(select %s@mem %s)", name, BVConst(64, i).S))
+			els = append(els, fmt.Sprintf("%d", v&mask(w)))
+		}
+		return fmt.Sprintf("%s{%s}", rc.goType(t), strings.Join(els, ", ")), true
+	case *types.Struct:
+		if isOpaqueStructType(t) {
+			return rc.goType(t) + "{}", true
+		}
+		var fs []string
+		for i := 0; i < u.NumFields(); i++ {
+			f := u.Field(i)
+			if !f.Exported() && f.Pkg() != rc.fn.Pkg.Pkg {
+				continue
+			}
+			if _, isI := f.Type().Underlying().(*types.Interface); isI {
+				continue
+			}
+			fv, ok := rc.goValue(name+"."+f.Name(), f.Type())
+			if !ok {
+				return "", false
+			}
+			fs = append(fs, fmt.Sprintf("%s: %s", f.Name(), fv))
+		}
+		return fmt.Sprintf("%s{%s}", rc.goType(t), strings.Join(fs, ", ")), true
+	case *types.Pointer:
+		if rc.vals[name+"?nil"] == "true" {
+			return "nil", true
+		}
+		ev, ok := rc.goValue(name+"^", u.Elem())
+		if !ok {
+			return "", false
+		}
+		return "&" + ev, true
+	}
+	return "", false
+}
+
+func (rc *replayCtx) render(prop string) (string, bool) {
+	fn := rc.fn
+	var b strings.Builder
+	var args []string
+	var body strings.Builder
+	recvName := ""
+	for i, prm := range fn.Params {
+		v, ok := rc.goValue(sanitize(prm.Name()), prm.Type())
+		if !ok {
+			return "", false
+		}
+		vn := "arg_" + prm.Name()
+		fmt.Fprintf(&body, "\t%s := %s\n", vn, v)
+		if i == 0 && fn.Signature.Recv() != nil {
+			recvName = vn
+			continue
+		}
+		args = append(args, vn)
+	}
+	call := fn.Name() + "(" + strings.Join(args, ", ") + ")"
+	if recvName != "" {
+		call = recvName + "." + call
+	}
+	if fn.Signature.Variadic() {
+		return "", false
+	}
+	nres := fn.Signature.Results().Len()
+	var lhs []string
+	for i := 0; i < nres; i++ {
+		lhs = append(lhs, fmt.Sprintf("r%d", i))
+	}
+	assign := call
+	if nres > 0 {
+		assign = strings.Join(lhs, ", ") + " := " + call
+	}
+	check := ""
+	if rc.o.Kind == "ensures" {
+		cl := rc.findEnsures()
+		if cl == nil {
+			return "", false
+		}
+		g := &goGen{rc: rc, pre: map[string]string{}}
+		expr, ok := g.gen(cl.E, false)
+		if !ok {
+			return "", false
+		}
+		body.WriteString(g.preCode.String())
+		uses := ""
+		for _, l := range lhs {
+			uses += "\t_ = " + l + "\n"
+		}
+		check = fmt.Sprintf("%s\tif !(%s) {\n\t\tt.Fatalf(\"REPLAY-CONFIRMED %s: postcondition %%s of %s is false on the verifier's counterexample\", %q)\n\t}\n\tt.Logf(\"REPLAY-NOT-REPRODUCED: postcondition holds on this input\")\n",
+			uses, expr, prop, fnKey(fn), "["+strings.Join(cl.Labels, ",")+"] "+cl.Src)
+		for k := range g.imports {
+			rc.imports[k] = true
+		}
+	} else {
+		uses := ""
+		for _, l := range lhs {
+			uses += "\t_ = " + l + "\n"
+		}
+		check = uses + "\tt.Logf(\"REPLAY-NOT-REPRODUCED: no panic on this input\")\n"
+	}
+	fmt.Fprintf(&b, "package %s\n\n// Generated by walvc from the solver model of the failed obligation\n//   %s\n// It runs the real code on the counterexample.\n\nimport (\n", fn.Pkg.Pkg.Name(), rc.o.Name)
+	var imps []string
+	for k := range rc.imports {
+		imps = append(imps, k)
+	}
+	sort.Strings(imps)
+	for _, k := range imps {
+		fmt.Fprintf(&b, "\t%q\n", k)
+	}
+	b.WriteString(")\n\n")
+	b.WriteString(goHelpers)
+	fmt.Fprintf(&b, "\nfunc TestReplayCounterexample(t *testing.T) {\n\tdefer func() {\n\t\tif r := recover(); r != nil {\n\t\t\tt.Fatalf(\"REPLAY-CONFIRMED %s: %s panics on the verifier's counterexample: %%v\", r)\n\t\t}\n\t}()\n", prop, fnKey(fn))
+	b.WriteString(body.String())
+	fmt.Fprintf(&b, "\t%s\n", assign)
+	b.WriteString(check)
+	b.WriteString("}\n")
+	return b.String(), true
+}
+
+func (rc *replayCtx) findEnsures() *Clause {
+	c := rc.o.Exec.contract
+	if c == nil {
+		return nil
+	}
+	// obligation names look like unit/ensures[label](#k)(/piece)
+	name := strings.TrimPrefix(rc.o.Name, rc.o.Unit+"/")
+	for _, en := range c.Ensures {
+		lbl := strings.Join(en.Labels, ",")
+		if lbl != "" && strings.HasPrefix(name, "ensures["+lbl+"]") {
+			return en
+		}
+	}
+	return nil
+}
+
+const goHelpers = `
+func rpLE(b []byte, off int, n int) uint64 {
+	var v uint64
+	for i := 0; i < n; i++ {
+		v |= uint64(b[off+i]) << (8 * uint(i))
+	}
+	return v
+}
+func rpZero(b []byte, lo, hi int) bool {
+	for i := lo; i < hi; i++ {
+		if b[i] != 0 {
+			return false
+		}
+	}
+	return true
+}
+func rpEq(a []byte, alo int, b []byte, blo int, n int) bool {
+	for i := 0; i < n; i++ {
+		if a[alo+i] != b[blo+i] {
+			return false
+		}
+	}
+	return true
+}
+func rpImp(a, b bool) bool { return !a || b }
+func rpIte[T any](c bool, a, b T) T {
+	if c {
+		return a
+	}
+	return b
+}
+`
+
+// goGen translates contract expressions to Go source.
+type goGen struct {
+	rc      *replayCtx
+	pre     map[string]string
+	preCode strings.Builder
+	imports map[string]bool
+	binds   map[string]string
+}
+
+func (g *goGen) gen(x Expr, old bool) (string, bool) {
+	if g.imports == nil {
+		g.imports = map[string]bool{}
+	}
+	fn := g.rc.fn
+	switch n := x.(type) {
+	case *EInt:
+		return fmt.Sprintf("%d", n.V), true
+	case *EBool:
+		return fmt.Sprintf("%v", n.V), true
+	case *ENil:
+		return "nil", true
+	case *EIdent:
+		if v, ok := g.binds[n.Name]; ok {
+			return v, true
+		}
+		if n.Name == "result" || n.Name == "result0" {
+			return "r0", true
+		}
+		if strings.HasPrefix(n.Name, "result") {
+			return "r" + n.Name[6:], true
+		}
+		for i := 0; i < fn.Signature.Results().Len(); i++ {
+			if fn.Signature.Results().At(i).Name() == n.Name {
+				return fmt.Sprintf("r%d", i), true
+			}
+		}
+		for _, p := range fn.Params {
+			if p.Name() == n.Name {
+				if old {
+					return g.oldCopy(p), true
+				}
+				return "arg_" + p.Name(), true
+			}
+		}
+		// package-level constant or variable
+		if m, ok := fn.Pkg.Members[n.Name]; ok {
+			switch m.(type) {
+			case *ssa.NamedConst, *ssa.Global:
+				return n.Name, true
+			}
+		}
+		return "", false
+	case *EOld:
+		return g.gen(n.X, true)
+	case *ESel:
+		if id, ok := n.X.(*EIdent); ok {
+			isVar := false
+			for _, p := range fn.Params {
+				if p.Name() == id.Name {
+					isVar = true
+				}
+			}
+			if _, b := g.binds[id.Name]; b {
+				isVar = true
+			}
+			if !isVar && !strings.HasPrefix(id.Name, "result") {
+				for _, imp := range fn.Pkg.Pkg.Imports() {
+					if imp.Name() == id.Name {
+						g.imports[imp.Path()] = true
+						return id.Name + "." + n.Name, true
+					}
+				}
+			}
+		}
+		b, ok := g.gen(n.X, old)
+		if !ok {
+			return "", false
+		}
+		return b + "." + n.Name, true
+	case *EIndex:
+		b, ok1 := g.gen(n.X, old)
+		i, ok2 := g.gen(n.I, old)
+		return fmt.Sprintf("%s[%s]", b, i), ok1 && ok2
+	case *EUn:
+		v, ok := g.gen(n.X, old)
+		if !ok {
+			return "", false
+		}
+		switch n.Op {
+		case "()":
+			return "(" + v + ")", true
+		case "!":
+			return "!(" + v + ")", true
+		case "-":
+			return "-(" + v + ")", true
+		case "^":
+			return "^(" + v + ")", true
+		}
+	case *EBin:
+		l, ok1 := g.gen(n.L, old)
+		r, ok2 := g.gen(n.R, old)
+		if !ok1 || !ok2 {
+			return "", false
+		}
+		switch n.Op {
+		case "==>":
+			return fmt.Sprintf("rpImp(%s, %s)", l, r), true
+		case "<==>":
+			return fmt.Sprintf("((%s) == (%s))", l, r), true
+		}
+		return fmt.Sprintf("(%s %s %s)", l, n.Op, r), true
+	case *ECall:
+		var as []string
+		for _, a := range n.Args {
+			v, ok := g.gen(a, old)
+			if !ok {
+				return "", false
+			}
+			as = append(as, v)
+		}
+		switch n.Fn {
+		case "len", "cap", "int", "int64", "uint64", "uint32", "uint8", "byte", "uint16", "int32", "uint":
+			return fmt.Sprintf("%s(%s)", n.Fn, strings.Join(as, ", ")), true
+		case "LE16":
+			return fmt.Sprintf("uint16(rpLE(%s, int(%s), 2))", as[0], as[1]), true
+		case "LE32":
+			return fmt.Sprintf("uint32(rpLE(%s, int(%s), 4))", as[0], as[1]), true
+		case "LE64":
+			return fmt.Sprintf("rpLE(%s, int(%s), 8)", as[0], as[1]), true
+		case "zero":
+			return fmt.Sprintf("rpZero(%s, int(%s), int(%s))", as[0], as[1], as[2]), true
+		case "eqbytes":
+			return fmt.Sprintf("rpEq(%s, int(%s), %s, int(%s), int(%s))", as[0], as[1], as[2], as[3], as[4]), true
+		case "ite":
+			return fmt.Sprintf("rpIte(%s, %s, %s)", as[0], as[1], as[2]), true
+		case "errors.Is":
+			g.imports["errors"] = true
+			return fmt.Sprintf("errors.Is(%s, %s)", as[0], as[1]), true
+		}
+		// predicates: expand
+		pk := fn.Pkg.Pkg.Name() + "." + n.Fn
+		if pr, ok := g.rc.p.contracts.Preds[pk]; ok && len(pr.Params) == len(as) {
+			saved := g.binds
+			nb := map[string]string{}
+			for k, v := range saved {
+				nb[k] = v
+			}
+			for i, pn := range pr.Params {
+				nb[pn] = "(" + as[i] + ")"
+			}
+			g.binds = nb
+			v, ok := g.gen(pr.Body, old)
+			g.binds = saved
+			return "(" + v + ")", ok
+		}
+		return "", false
+	}
+	return "", false
+}
+
+// oldCopy snapshots a parameter before the call (slices are copied).
+func (g *goGen) oldCopy(p *ssa.Parameter) string {
+	name := "old_" + p.Name()
+	if _, done := g.pre[name]; done {
+		return name
+	}
+	g.pre[name] = "1"
+	if _, ok := p.Type().Underlying().(*types.Slice); ok {
+		fmt.Fprintf(&g.preCode, "\t%s := append(%s(nil), arg_%s...)\n\t_ = %s\n", name, g.rc.goType(p.Type()), p.Name(), name)
+	} else if pt, ok := p.Type().Underlying().(*types.Pointer); ok {
+		_ = pt
+		fmt.Fprintf(&g.preCode, "\tvar %s = arg_%s\n\tif arg_%s != nil {\n\t\tcp := *arg_%s\n\t\t%s = &cp\n\t}\n\t_ = %s\n", name, p.Name(), p.Name(), p.Name(), name, name)
+	} else {
+		fmt.Fprintf(&g.preCode, "\t%s := arg_%s\n\t_ = %s\n", name, p.Name(), name)
+	}
+	return name
+}
+
+// metricReplay: a metric name not declared in MetricDefinitions makes the
+// bundled AtomicCollector panic.
+func (p *Prog) metricReplay(o *Obl, dir, base string) (string, bool) {
+	var pkgDir, pkgName string
+	for _, ap := range p.astPkgs {
+		if ap.PkgPath == o.MetricPkg && len(ap.GoFiles) > 0 {
+			pkgDir = filepath.Dir(ap.GoFiles[0])
+			pkgName = ap.Name
+		}
+	}
+	if pkgDir == "" || o.MetricName == "<non-constant>" {
+		return "", false
+	}
+	call := fmt.Sprintf("c.IncrementCounter(%q, 1)", o.MetricName)
+	if o.MetricKind == "SetGauge" {
+		call = fmt.Sprintf("c.SetGauge(%q, 1)", o.MetricName)
+	}
+	src := fmt.Sprintf(`package %s
+
+// Generated by walvc: the emitting call site
+//   %s
+// passes a metric name that is not declared in MetricDefinitions.
+
+import (
+	"testing"
+
+	"github.com/hashicorp/raft-wal/metrics"
+)
+
+func TestReplayCounterexample(t *testing.T) {
+	defer func() {
+		if r := recover(); r != nil {
+			t.Fatalf("REPLAY-CONFIRMED C20: the bundled AtomicCollector panics on the emitted name: %%v", r)
+		}
+	}()
+	c := metrics.NewAtomicCollector(MetricDefinitions)
+	%s
+	t.Logf("REPLAY-NOT-REPRODUCED")
+}
+`, pkgName, o.Name, call)
+	testFile := filepath.Join(dir, base+"_test.go")
+	os.WriteFile(testFile, []byte(src), 0644)
+	out, confirmed := runOverlayTest(pkgDir, testFile, "TestReplayCounterexample")
+	os.WriteFile(filepath.Join(dir, base+".out.txt"), []byte(out), 0644)
+	if !confirmed {
+		return "", false
+	}
+	return testFile, true
+}
